@@ -404,11 +404,11 @@ REARM_EXC = {("bufferevent_socket_connect", 0x04): "a new connection attempt: th
 REARM_UNITS = ["bufferevent", "bufferevent_sock", "bufferevent_pair", "bufferevent_filter", "bufferevent_ratelim"]
 
 
-def rule_rearm(P):
+def rule_rearm(P, rid="C19-rearm"):
     """who may switch a direction back on: after EOF/ERROR the library disables the direction (bufev->enabled loses the bit); every path that re-arms through the `enable` slot must
     ask bufev->enabled first, or be bufferevent_enable itself (which records the user's wish).  The two unsuspend functions and bufferevent_enable are evaluated; any other site
     needs a dominating test of bufev->enabled for its (constant) direction."""
-    r = Rule("C19-rearm", "K6/K3", "a direction is re-armed through be_ops->enable only if bufev->enabled still has it (a direction that reported EOF/ERROR stays off through suspend/unsuspend cycles)", floor=30)
+    r = Rule(rid, "K6/K3", "a direction is re-armed through be_ops->enable only if bufev->enabled still has it (a direction that reported EOF/ERROR stays off through suspend/unsuspend cycles)", floor=30)
     R_, W_ = 0x02, 0x04
     impls = P.slots().get("bufferevent_ops.enable", set())
     sites = []
